@@ -79,7 +79,10 @@ func (f *Read) Call(s *slip.Scope, args slip.List, depth int) slip.Object {
 func (f *Read) wrapRead(s *slip.Scope, r io.Reader, eofp bool, eofv slip.Object, depth int) (result slip.Object) {
 	defer func() {
 		if rec := recover(); rec != nil {
-			if eofp {
+			// Only the end of the stream gives the eof-value, the end inside
+			// of a form included. A parse error or a failed read of the
+			// stream is not an end of file and is always signalled.
+			if _, partial := rec.(*slip.PartialPanic); eofp || !partial {
 				panic(rec)
 			}
 			result = eofv
